@@ -465,6 +465,80 @@ theorem pair_order_tie_witness :
       IcePairs.checkOrder .controlling false [h 1, h 2] [h 3, h 4] := by
   decide
 
+/-- **selected_pair_has_highest_priority**: the pair the agent USES (the part of
+`perform_connectivity_checks_async` after the checks: `successful_pairs.sort_by_key(Reverse(priority))`, `[0]`,
+`successful_nominations.sort_by_key(..)`, `.first()`), for any arrival order of the results:
+the controlling agent ends with the highest-priority pair among the nominations that succeeded
+(nomination complete, Connected), or — when no nomination succeeded — with the highest-priority pair among the
+checks that succeeded (nomination failed, Failed); the controlled agent's provisional pair is the
+highest-priority pair among its successful checks, and nothing is touched once the peer has nominated. -/
+theorem selected_pair_has_highest_priority (role : Role) (succ noms : List IcePairs.PPair) (peerNominated : Bool)
+    (o : IcePairs.Outcome) (h : IcePairs.conclude role succ noms peerNominated = some o) :
+    (role = .controlling → noms ≠ [] →
+      o.selected ∈ noms ∧ (∀ q ∈ noms, IcePairs.prio role q ≤ IcePairs.prio role o.selected) ∧
+      o.nominationComplete = some true ∧ o.connected = true) ∧
+    (role = .controlling → noms = [] →
+      o.selected ∈ succ ∧ (∀ q ∈ succ, IcePairs.prio role q ≤ IcePairs.prio role o.selected) ∧
+      o.nominationComplete = some false ∧ o.connected = false) ∧
+    (role = .controlled →
+      peerNominated = false ∧ o.selected ∈ succ ∧ (∀ q ∈ succ, IcePairs.prio role q ≤ IcePairs.prio role o.selected) ∧
+      o.connected = true) := by
+  unfold IcePairs.conclude at h
+  cases hb : IcePairs.best role succ with
+  | none => rw [hb] at h; simp at h
+  | some top =>
+    rw [hb] at h
+    have ht := IcePairs.best_some role succ top hb
+    cases role with
+    | controlling =>
+      simp only at h
+      cases hn : IcePairs.best .controlling noms with
+      | none =>
+        rw [hn] at h
+        have hnil := (IcePairs.best_none _ _).mp hn
+        simp only [Option.some.injEq] at h; subst h
+        exact ⟨fun _ hne => absurd hnil hne, fun _ _ => ⟨ht.1, ht.2, rfl, rfl⟩, fun hc => by cases hc⟩
+      | some f =>
+        rw [hn] at h
+        have hf := IcePairs.best_some _ noms f hn
+        simp only [Option.some.injEq] at h; subst h
+        refine ⟨fun _ _ => ⟨hf.1, hf.2, rfl, rfl⟩, fun _ hnil => ?_, fun hc => by cases hc⟩
+        rw [hnil] at hf; simp at hf
+    | controlled =>
+      simp only at h
+      cases peerNominated with
+      | true => simp at h
+      | false =>
+        simp only [Bool.false_eq_true, ↓reduceIte, Option.some.injEq] at h; subst h
+        exact ⟨fun hc => (by cases hc), fun hc => (by cases hc), fun _ => ⟨rfl, ht.1, ht.2, rfl⟩⟩
+
+/-- **both_agents_use_same_pair**: if the same checks succeeded on both sides (B's successful pairs are A's,
+swapped) and distinct pairs have distinct pair priorities, the controlled agent's provisional pair is the
+controlling agent's highest-priority successful pair — whatever the arrival orders. The priority hypothesis is
+about the numbers each agent HOLDS for the same candidates being equal (see
+`peer_reflexive_priority_from_request`) and distinct (see `pair_order_tie_witness`). -/
+theorem both_agents_use_same_pair (succ : List IcePairs.PPair)
+    (hd : ∀ p ∈ succ, ∀ q ∈ succ, p ≠ q → IcePairs.prio .controlling p ≠ IcePairs.prio .controlling q) :
+    IcePairs.best .controlled (succ.map Prod.swap) = (IcePairs.best .controlling succ).map Prod.swap := by
+  cases hb : IcePairs.best .controlling succ with
+  | none => rw [(IcePairs.best_none _ _).mp hb]; rfl
+  | some p =>
+    obtain ⟨hp, hmax⟩ := IcePairs.best_some _ _ _ hb
+    simp only [Option.map_some]
+    apply IcePairs.best_unique
+    · exact List.mem_map.mpr ⟨p, hp, rfl⟩
+    · intro q' hq' hne
+      obtain ⟨q, hq, rfl⟩ := List.mem_map.mp hq'
+      have hqp : q ≠ p := fun e => hne (by rw [e])
+      have e1 : IcePairs.prio .controlled (Prod.swap q) = IcePairs.prio .controlling q := by
+        rw [← IcePairs.prio_swap]; simp
+      have e2 : IcePairs.prio .controlled (Prod.swap p) = IcePairs.prio .controlling p := by
+        rw [← IcePairs.prio_swap]; simp
+      rw [e1, e2]
+      have := hmax q hq
+      have := hd q hq p hp hqp
+      omega
+
 /-- **connectivity_check_accepted_by_peer**: the connectivity check / nomination request the agent composes
 (`perform_binding_check`: SOFTWARE, USERNAME `remote:local`, PRIORITY, ICE-CONTROLLING or ICE-CONTROLLED, optional
 USE-CANDIDATE; MESSAGE-INTEGRITY under the REMOTE password; FINGERPRINT) passes the credential check of a
